@@ -116,6 +116,90 @@ def do_emitprog(setup, loop, funcs):
         return {"cpp": None, "exc": type(e).__name__}
 
 
+# ---------------------------------------------------------------- third round: promotion rewrite, stateful _emit_block
+_LEAF_IDS = {}
+
+
+def build_any(t):
+    """grouped JSON tree -> real IR; besides build_ir's kinds: ["decl", name, c_type, expr, global] / ["assign", name, expr]"""
+    k = t[0]
+    if k == "decl":
+        return A.VarDecl(name=t[1], c_type=t[2], expr=t[3], global_scope=bool(t[4]))
+    if k == "assign":
+        return A.VarAssign(name=t[1], expr=t[2])
+    if k == "leaf":
+        n = _leaf(t[1])
+        _LEAF_IDS[id(n)] = (n, t[1])
+        return n
+    if k == "if":
+        return A.IfStatement(branches=[A.ConditionalBranch(condition=c, body=[build_any(x) for x in b]) for c, b in t[1]],
+                             else_body=[build_any(x) for x in t[2]])
+    if k == "while":
+        return A.WhileLoop(condition=t[1], body=[build_any(x) for x in t[2]])
+    if k == "for":
+        return A.ForRangeLoop(var_name=t[1], count=t[2], body=[build_any(x) for x in t[3]])
+    if k == "try":
+        return A.TryStatement(try_body=[build_any(x) for x in t[1]],
+                              handlers=[A.CatchClause(exception=e, target=g, body=[build_any(x) for x in b]) for e, g, b in t[2]])
+    raise ValueError(k)
+
+
+def ser_any(n):
+    if isinstance(n, A.VarDecl):
+        return ["decl", n.name, n.c_type, n.expr, bool(n.global_scope)]
+    if isinstance(n, A.VarAssign):
+        return ["assign", n.name, n.expr]
+    if isinstance(n, A.IfStatement):
+        return ["if", [[b.condition, [ser_any(x) for x in b.body]] for b in n.branches], [ser_any(x) for x in n.else_body]]
+    if isinstance(n, A.WhileLoop):
+        return ["while", n.condition, [ser_any(x) for x in n.body]]
+    if isinstance(n, A.ForRangeLoop):
+        return ["for", n.var_name, n.count, [ser_any(x) for x in n.body]]
+    if isinstance(n, A.TryStatement):
+        return ["try", [ser_any(x) for x in n.try_body], [[h.exception, h.target, [ser_any(x) for x in h.body]] for h in n.handlers]]
+    if id(n) in _LEAF_IDS and _LEAF_IDS[id(n)][0] is n:
+        return ["leaf", _LEAF_IDS[id(n)][1]]
+    return ["other", repr(n)]
+
+
+def do_rewrite(names, trees):
+    """the real _rewrite_nodes"""
+    _LEAF_IDS.clear()
+    try:
+        out = P._rewrite_nodes([build_any(t) for t in trees], set(names))
+        return {"nodes": [ser_any(n) for n in out], "exc": None}
+    except _Timeout:
+        raise
+    except BaseException as e:  # noqa
+        return {"nodes": None, "exc": type(e).__name__}
+
+
+def do_promodecls(names, tys, top):
+    """the real _make_promotion_decls; tys = ctx["_promotion_cpp_types"]"""
+    try:
+        ctx = {"globals": [], "var_declared": set(), "vars": {}, "var_types": {}, "_promotion_cpp_types": dict(tys)}
+        out = P._make_promotion_decls(list(names), ctx, "setup" if top else "function", 0 if top else 1)
+        return {"nodes": [ser_any(n) for n in out], "globals": [ser_any(n) for n in ctx["globals"]], "exc": None}
+    except _Timeout:
+        raise
+    except BaseException as e:  # noqa
+        return {"nodes": None, "globals": None, "exc": type(e).__name__}
+
+
+def do_emitstate(in_setup, indent, pm, us, trees):
+    """the real _emit_block with given de-duplication sets; -> lines, the sets afterwards"""
+    try:
+        spm, sus = {tuple(k) for k in pm}, {tuple(k) for k in us}
+        lines = E._emit_block([build_any(t) for t in trees], {"led": 13}, {"led": "__state_led"}, {"led": "__brightness_led"}, {}, {}, {}, {}, {}, {},
+                              {}, {}, {}, {}, {}, {}, {}, {}, {}, {}, {}, {}, indent, in_setup=bool(in_setup), emitted_pin_modes=spm,
+                              ultrasonic_pin_modes=sus)
+        return {"lines": lines, "pm": sorted(list(k) for k in spm), "us": sorted(list(k) for k in sus), "exc": None}
+    except _Timeout:
+        raise
+    except BaseException as e:  # noqa
+        return {"lines": None, "pm": None, "us": None, "exc": type(e).__name__}
+
+
 def span(fn, lines, start):
     try:
         blk, i = fn(list(lines), start)
@@ -324,6 +408,12 @@ def main():
                 out.append(do_emitblock("", [["leaf", c[1]]]))
             elif op == "emitprog":
                 out.append(do_emitprog(c[1], c[2], c[3]))
+            elif op == "rewrite":
+                out.append(do_rewrite(c[1], c[2]))
+            elif op == "promodecls":
+                out.append(do_promodecls(c[1], c[2], c[3]))
+            elif op == "emitstate":
+                out.append(do_emitstate(c[1], c[2], c[3], c[4], c[5]))
             elif op == "rxall":
                 out.append(do_rxall(c[1]))
             elif op == "dispatch":
